@@ -78,6 +78,18 @@ def run(ctx):
                 text = open(hist_path).read()
             C.add_violation(ctx, sg, re.sub(r"[0-9a-f]{60,}", "<bytes>", msg)[:400],
                             "# C11: %s\n# replay: harness damage --replay %s --history %s\n%s" % (re.sub(r"[0-9a-f]{60,}", "<bytes>", msg)[:1500], img, hist_path, text))
+        # growth through every table-growth branch of the write path (second FAT sector ... first and second
+        # DIFAT sector: a V3 file of 18 MB): no call may panic
+        hdir = ctx.path("huge")
+        os.makedirs(hdir, exist_ok=True)
+        rc3, out3 = C.harness(["phys", "--huge", hdir, "--ops", ctx.path("huge.ops"), "--impl", ctx.path("huge.impl")])
+        for msg in C.parse_stats(out3)[2]:
+            if "panic" in msg:
+                C.add_violation(ctx, "panic:growth", msg[:400], "# C11: %s\n# replay: harness phys --huge <dir> --ops o --impl i\n%s\n" % (msg[:1500], open(ctx.path("huge.ops")).read() if os.path.exists(ctx.path("huge.ops")) else ""))
+        try:
+            os.remove(os.path.join(hdir, "huge_v3.cfb"))
+        except OSError:
+            pass
         # the model side of the tie: a small lock-step run of the write path on valid files
         stat2, h2, _ = P.campaign(ctx, ["--seed", ctx.seed, "--count", 40 if quick else 500, "--max-ops", 30], "tie", THM, PID)
         ctx.coverage.update({
